@@ -247,4 +247,35 @@ theorem variance_add (le : ℚ → ℚ → Bool) (a b : Hist ℚ) (ha : 0 < tota
   field_simp
   ring
 
+/-! ### variance is a central moment, hence non-negative (so `stdev` is defined) -/
+
+theorem rsum_nonneg {α : Type} (l : List (α × Nat)) (G : α → ℚ) (hG : ∀ x, 0 ≤ G x) : 0 ≤ rsum l G := by
+  induction l with
+  | nil => simp
+  | cons e l ih =>
+    rw [rsum_cons]
+    have : 0 ≤ G e.1 * (e.2 : ℚ) := mul_nonneg (hG _) (by exact_mod_cast Nat.zero_le _)
+    linarith
+
+/-- central-moment form: `variance = Σ count·(x − mean)² / total` -/
+theorem variance_central (h : Hist ℚ) (hT : 0 < total h) :
+    varianceH h none = rsum h (fun x => (x - meanH h) * (x - meanH h)) / (tot1 h : ℚ) := by
+  have hpos := tot1_pos h
+  have ht : (tot1 h : ℚ) = (total h : ℚ) := by rw [tot1_of_pos h hT]
+  have e : (fun x : ℚ => (x - meanH h) * (x - meanH h))
+      = fun x => (x * x + (-2 * meanH h) * x) + meanH h * meanH h := by funext x; ring
+  have hm : rsum h (fun x => x) = meanH h * (tot1 h : ℚ) := by
+    rw [meanH_eq]; field_simp
+  rw [varianceH_none, e, rsum_add, rsum_add, rsum_mul_left, rsum_const, hm, ← ht]
+  field_simp
+  ring
+
+theorem variance_nonneg (h : Hist ℚ) : 0 ≤ varianceH h none := by
+  by_cases hT : 0 < total h
+  · rw [variance_central h hT]
+    exact div_nonneg (rsum_nonneg h _ fun x => mul_self_nonneg _) (le_of_lt (tot1_pos h))
+  · have h0 : total h = 0 := by omega
+    rw [varianceH_none, meanH_eq, rsum_eq_zero_of_total_zero h h0, rsum_eq_zero_of_total_zero h h0]
+    simp
+
 end Dyce
